@@ -80,6 +80,7 @@ func (ln *listener) Accept() (net.Conn, error) {
 	}
 	nfd := &netFD{}
 	nfd.fd = fd
+	verifFD(vfdConn, nfd, fd)
 	nfd.localAddr = ln.addr
 	nfd.network = ln.addr.Network()
 	nfd.remoteAddr = sockaddrToAddr(sa)
@@ -89,9 +90,11 @@ func (ln *listener) Accept() (net.Conn, error) {
 // Close implements Listener.
 func (ln *listener) Close() error {
 	if ln.fd != 0 {
+		verifFD(-vfdListener, ln, ln.fd)
 		syscall.Close(ln.fd)
 	}
 	if ln.file != nil {
+		verifFD(-vfdListenerFile, ln, ln.fd)
 		ln.file.Close()
 	}
 	if ln.ln != nil {
@@ -123,5 +126,6 @@ func (ln *listener) parseFD() (err error) {
 		return err
 	}
 	ln.fd = int(ln.file.Fd())
+	verifFD(vfdListener, ln, ln.fd)
 	return nil
 }
